@@ -147,10 +147,10 @@ func (na *NilAn) returnsUntrusted(g *ssa.Function) bool {
 	}
 	na.needMemo[key] = 2
 	for _, r := range returnsOf(g) {
-		if _, isCall := r.Results[0].(*ssa.Call); isCall {
+		if _, isCall := retValue(r, 0).(*ssa.Call); isCall {
 			continue
 		}
-		if _, ok := na.untrustedNullable(r.Results[0]); ok {
+		if _, ok := na.untrustedNullable(retValue(r, 0)); ok {
 			na.needMemo[key] = 1
 			return true
 		}
